@@ -592,4 +592,73 @@ theorem openGo_none : ∀ (rest : List Char) (esc : Bool) (d s i : Nat),
 theorem openStart_none_iff (t : List Char) : openStart t = none ↔ braceDepth false 0 t = 0 :=
   openGo_none t false 0 0 0
 
+/-! ### the error list and the grammar agree -/
+
+theorem openErr_nil_iff (t : List Char) : openErr t = [] ↔ braceDepth false 0 t = 0 := by
+  rw [← openStart_none_iff]
+  unfold openErr
+  cases openStart t <;> simp
+
+theorem stmtErrs_nil_iff (split : List Char → List (List Char)) (known : List Char → Bool)
+    (inner : List Char → List SynErr) (t : List Char) (s : Stmt)
+    (hA : ∀ a ∈ split s.body, (inner a = [] ↔ WellFormed split known a)) :
+    stmtErrs split known inner t s = [] ↔ WellFormedStmt split known s.body := by
+  unfold stmtErrs
+  match hs : split s.body with
+  | [] =>
+    simp only []
+    constructor
+    · intro h; cases h
+    · intro h
+      cases h with
+      | lone _ a h => rw [hs] at h; cases h
+      | call _ n x xs h => rw [hs] at h; cases h
+  | [a] => exact ⟨fun _ => .lone _ a hs, fun _ => rfl⟩
+  | name :: x :: xs =>
+    simp only []
+    have hargs : ∀ a ∈ x :: xs, (inner a = [] ↔ WellFormed split known a) := fun a ha =>
+      hA a (by rw [hs]; exact List.mem_cons_of_mem _ ha)
+    by_cases hk : known name = true
+    · rw [if_pos hk]
+      rw [List.map_eq_nil_iff, List.flatMap_eq_nil_iff]
+      constructor
+      · intro h
+        exact .call _ name x xs hs hk fun a ha => (hargs a ha).mp (h a ha)
+      · intro h
+        cases h with
+        | lone _ a h => rw [hs] at h; cases h
+        | call _ n x' xs' h _ hall =>
+          rw [hs] at h; cases h
+          exact fun a ha => (hargs a ha).mpr (hall a ha)
+    · rw [if_neg hk]
+      constructor
+      · intro h; cases h
+      · intro h
+        cases h with
+        | lone _ a h => rw [hs] at h; cases h
+        | call _ n x' xs' h hk' =>
+          rw [hs] at h; cases h
+          exact absurd hk' hk
+
+/-- The two specs agree: the error list is empty exactly for the templates of the grammar. -/
+theorem synErrs_nil_iff_wf (split : List Char → List (List Char)) (known : List Char → Bool)
+    (hsplit : ∀ b a, a ∈ split b → a.length ≤ b.length) :
+    ∀ (N : Nat) (t : List Char), t.length < N → (synErrs split known t = [] ↔ WellFormed split known t) := by
+  intro N
+  induction N with
+  | zero => intro t h; omega
+  | succ N ih =>
+    intro t ht
+    rw [synErrs_unfold_gen split known hsplit t, wfTemplate_iff, List.append_eq_nil_iff, List.flatMap_eq_nil_iff,
+      openErr_nil_iff, ← stmts_bodies]
+    rw [and_comm]
+    refine and_congr Iff.rfl ?_
+    simp only [List.mem_map, forall_exists_index, and_imp, forall_apply_eq_imp_iff₂]
+    refine forall_congr' fun s => imp_congr_right fun hs => ?_
+    apply stmtErrs_nil_iff
+    intro a ha
+    have h1 := stmts_length hs
+    have h2 := hsplit _ _ ha
+    exact ih a (by omega)
+
 end Rare.C09
